@@ -402,7 +402,7 @@ def name_list_unit(vcls):
                 functions=['VectorString._parse[%s]' % vcls.__name__, 'VectorString.compose'])
 
 
-def units(tier, seed):
+def _units_body(tier, seed):
     out = []
     from cryptoparser.ssh import subprotocol as _SP
     for vc_ in (_SP.SshKexAlgorithmVector, _SP.SshEncryptionAlgorithmVector):
@@ -427,6 +427,12 @@ def units(tier, seed):
     from checks import hello
     out.append(hello.unit(('K3',), 'C10 codes preserved inside a ClientHello'))
     return out + foundation.units(tier, seed, include_enum=False)
+
+
+
+def units(tier, seed):
+    from checks import canary
+    return list(_units_body(tier, seed)) + [canary.decode_first_member()]
 
 
 FINDING_REPLAYS = {'KF-C10-name-list-declared-length': w_name_list_declared}
